@@ -7,7 +7,9 @@ import (
 	"os"
 	"os/exec"
 	"path/filepath"
+	"sort"
 	"strings"
+	"syscall"
 	"time"
 
 	cmttypes "github.com/cometbft/cometbft/types"
@@ -45,6 +47,138 @@ func tail(s string, n int) string {
 		return s[len(s)-n:]
 	}
 	return s
+}
+
+
+// c07KillReplica runs the recorded history in a chain of OS processes on one goleveldb directory: each process continues
+// from whatever the database holds and kills itself with SIGKILL at the next planned crash point (before FinalizeBlock,
+// between FinalizeBlock and Commit, a few hundred microseconds into Commit, right after Commit); the last one runs to the
+// end. Returns every outcome any of the processes observed plus complaints about the height found after a crash.
+func c07KillReplica(c *vc.Ctx, rec *world.Recording, recFile, bin string, idx int) ([]world.Outcome, []string, error) {
+	dir := filepath.Dir(recFile)
+	dbDir := filepath.Join(dir, fmt.Sprintf("c07-killdb-%d-%d", c.Seed, idx))
+	logFile := recFile + ".r6"
+	os.RemoveAll(dbDir)
+	os.Remove(logFile)
+	defer os.RemoveAll(dbDir)
+	defer os.Remove(logFile)
+	r := world.NewRand(c.Seed, "c07kill", idx)
+	nb := int64(len(rec.Blocks))
+	// crash points at increasing heights, every phase represented, hot heights preferred
+	var pts []world.KillPoint
+	phases := []string{"during", "after", "during", "done", "before", "during"}
+	h := int64(1)
+	for k := 0; h <= nb && k < c.Pick(10, 24); k++ {
+		ph := phases[k%len(phases)]
+		pts = append(pts, world.KillPoint{Height: h, Phase: ph, DelayUS: r.Intn(1 + []int{50, 300, 1500, 6000}[r.Intn(4)])})
+		h += int64(1 + r.Intn(int(nb)/c.Pick(8, 20)+1))
+	}
+	for _, hh := range rec.Hot {
+		if r.Intn(3) == 0 && len(pts) < c.Pick(14, 30) {
+			pts = append(pts, world.KillPoint{Height: hh, Phase: []string{"during", "after"}[r.Intn(2)], DelayUS: r.Intn(2000)})
+		}
+	}
+	sort.SliceStable(pts, func(i, j int) bool { return pts[i].Height < pts[j].Height })
+	type planned struct {
+		kp     world.KillPoint
+		killed bool
+	}
+	var plan []planned
+	run := func(kp *world.KillPoint) (killed bool, err error) {
+		args := []string{"-replica", recFile, "-mode", "kill", "-dbdir", dbDir, "-out", logFile}
+		if kp != nil {
+			args = append(args, "-killat", fmt.Sprintf("%d:%s:%d", kp.Height, kp.Phase, kp.DelayUS))
+		}
+		cmd := exec.Command(bin, args...)
+		cmd.Env = append(os.Environ(), "GOMAXPROCS=4")
+		outp, err := cmd.CombinedOutput()
+		if err == nil {
+			return false, nil
+		}
+		if ee, ok := err.(*exec.ExitError); ok {
+			if ws, ok := ee.Sys().(syscall.WaitStatus); ok && ws.Signaled() && ws.Signal() == syscall.SIGKILL {
+				return true, nil
+			}
+		}
+		return false, fmt.Errorf("%v: %s", err, tail(string(outp), 800))
+	}
+	finished := false
+	for _, kp := range pts {
+		kp := kp
+		killed, err := run(&kp)
+		if err != nil {
+			return nil, nil, fmt.Errorf("process with crash point %+v: %w", kp, err)
+		}
+		plan = append(plan, planned{kp, killed})
+		if killed {
+			c.Count("crashes_by_SIGKILL_"+kp.Phase, 1)
+		} else {
+			// the point lay behind what the database already held, or the history ended earlier
+			finished = true
+		}
+	}
+	if _, err := run(nil); err != nil {
+		return nil, nil, fmt.Errorf("final process: %w", err)
+	}
+	_ = finished
+	bz, err := os.ReadFile(logFile)
+	if err != nil {
+		return nil, nil, err
+	}
+	var outs []world.Outcome
+	var complaints []string
+	var lines []world.KillLine
+	for _, ln := range strings.Split(string(bz), "\n") {
+		if strings.TrimSpace(ln) == "" {
+			continue
+		}
+		var l world.KillLine
+		if json.Unmarshal([]byte(ln), &l) != nil {
+			continue // a line cut short by the kill
+		}
+		lines = append(lines, l)
+	}
+	// per process: start height against what the previous process had reached
+	lastOutcome, lastCommitted := int64(0), int64(0)
+	sawEnd := false
+	for i, l := range lines {
+		switch l.Kind {
+		case "start":
+			if i > 0 {
+				// Commit had returned for lastCommitted: it must be there; nothing beyond the last finalised height can be
+				if l.Height < lastCommitted {
+					complaints = append(complaints, fmt.Sprintf("a restarted node reports height %d although Commit had returned for height %d before the crash", l.Height, lastCommitted))
+				}
+				if l.Height > lastOutcome {
+					complaints = append(complaints, fmt.Sprintf("a restarted node reports height %d although only height %d had been finalised before the crash", l.Height, lastOutcome))
+				}
+				c.Count("restarts_after_SIGKILL", 1)
+				if l.Height == lastOutcome && lastCommitted < lastOutcome {
+					c.Count("crashes_inside_Commit_that_kept_the_block", 1)
+				}
+				if l.Height < lastOutcome {
+					c.Count("crashes_that_lost_the_uncommitted_block", 1)
+				}
+			}
+			lastOutcome, lastCommitted = l.Height, l.Height
+		case "outcome":
+			if l.Outcome != nil {
+				outs = append(outs, *l.Outcome)
+			}
+			lastOutcome = l.Height
+		case "committed":
+			lastCommitted = l.Height
+		case "end":
+			sawEnd = true
+			if l.Err != "" {
+				complaints = append(complaints, "a restarted node could not continue: "+l.Err)
+			}
+		}
+	}
+	if !sawEnd {
+		return outs, complaints, fmt.Errorf("the final process did not reach the end of the history")
+	}
+	return outs, complaints, nil
 }
 
 func c07History(c *vc.Ctx, idx int) {
@@ -253,6 +387,34 @@ func c07History(c *vc.Ctx, idx int) {
 			break
 		}
 	}
+	if idx%2 == 0 || c.Thorough() {
+		name := "R6 chain of processes on one goleveldb directory, each killed with SIGKILL at a planned crash point"
+		outs, complaints, err := c07KillReplica(c, rec, recFile, self, idx)
+		if err != nil {
+			c.Inconclusive("replica %q could not run: %v", name, err)
+		} else {
+			c.Count("replica_runs", 1)
+			for _, cm := range complaints {
+				c.Violation("state found after a process kill is not a committed state of the history", cm, map[string]any{"history": h.replay(), "replica": name})
+			}
+			for _, o := range outs {
+				c.Eval(1)
+				p, ok := primary[o.Height]
+				if !ok {
+					continue
+				}
+				c.Count("block_executions_compared", 1)
+				c.Count("block_executions_compared_after_kills", 1)
+				if o.Key() == p.Key() {
+					continue
+				}
+				what := c07Diff(p, o)
+				c.Violation("replicas disagree on "+what.field, fmt.Sprintf("height %d, %s: primary %s, replica %s", o.Height, name, what.a, what.b),
+					map[string]any{"history": h.replay(), "height": o.Height, "replica": name})
+				break
+			}
+		}
+	}
 	c.Sample(map[string]any{"blocks": len(rec.Blocks), "hot_heights": hot, "replicas": len(reps), "validators": len(h.vals), "last_ops": lastN(h.opsLog, 3)})
 }
 
@@ -293,7 +455,7 @@ func init() {
 	vc.Register(&vc.Check{
 		ID: "C07", Title: "State transition is deterministic across replicas, re-execution and restart", Level: "exploration",
 		Rule: "one case = one adversarial history (36/110 blocks: random locking requests incl. unknown validators/tokens, every 4th block a lock batch over 3..6 validators with one failing entry in shuffled order, every 5th block valid/invalid/malformed relayer messages incl. a deposit batch with four headers and items that are wrong in different ways, evidence, churn) recorded once on a primary and re-executed by replicas: " +
-			"R1 fresh node in the same process, R2 another OS process with GOMAXPROCS=1, R3 another process built with the race detector at GOMAXPROCS=16, R4 a goleveldb node closed and reopened before every block, R5 every block finalised, crashed before Commit, reopened and finalised again (blocks driving the map-ordered loops: 16 such rounds); " +
+			"R1 fresh node in the same process, R2 another OS process with GOMAXPROCS=1, R3 another process built with the race detector at GOMAXPROCS=16, R4 a goleveldb node closed and reopened before every block, R5 every block finalised, crashed before Commit, reopened and finalised again (blocks driving the map-ordered loops: 16 such rounds), R6 (every second history) a chain of OS processes on one goleveldb directory, each killing itself with SIGKILL at a planned crash point (before FinalizeBlock, between FinalizeBlock and Commit, 0-6000 us into Commit, right after Commit) and the next one continuing from whatever the disk holds - the height found after a kill must lie between the last height whose Commit had returned and the last finalised height; " +
 			"compared per height: app hash, every tx's code/codespace/data/gas wanted/gas used, validator updates as a set, engine calls (method + arguments). Replicas start >= 1.1 s after the primary; every fourth history runs on the machine's clock (block time = wall clock at proposal, unlock/exit/jail/election/evidence periods of 150-600 ms). Non-trivial = a block with a failing transaction, a hot lock batch or >= 2 validators leaving; distinct = (failing txs, hot, leaving, txs).",
 		Assume: []string{"no clock virtualisation for Go binaries here: dependence on the node's clock is provoked by running every fourth history on the wall clock with periods of a few hundred milliseconds and the replicas seconds later; a dependence on clock fields coarser than that delay is out of reach", "map-order dependence is exposed only with the probability Go's per-loop randomisation gives: >= 17 executions of every hot block"},
 		Cases:  func(tier string) int { return map[string]int{"quick": 8, "thorough": 80}[tier] },
